@@ -1,6 +1,6 @@
-(* C16 driver.  argv[1] = metadata dump of the harness (h_sess --meta).
+(* C17 driver.  argv[1] = metadata dump of the harness (h_sess --meta).
    case: a history line; impl result: the harness' trace line.
-   model result = run_line schema case; oracle = c16_ok on the parsed trace of either side. *)
+   model result = run_line schema case; oracle = c17_ok on the parsed trace of either side. *)
 let nlist_of_string (s : string) : n list =
   let r = ref [] in
   for i = String.length s - 1 downto 0 do r := n_of_int (Char.code s.[i]) :: !r done; !r
@@ -36,9 +36,9 @@ let load_schema (path : string) : schema =
 
 let () =
   let sc = load_schema Sys.argv.(1) in
-  (* the theorems' hypothesis on the schema, evaluated on the metadata dumped from the generated code *)
-  if not (wf_schema sc) then (prerr_endline "schema metadata does not satisfy wf_schema"; exit 3);
+  (* the theorems' hypotheses on the schema, evaluated on the metadata dumped from the generated code *)
+  if not (wf_schema sc && wf_admin sc && nonul sc.sc_begin) then (prerr_endline "schema metadata does not satisfy wf_schema/wf_admin"; exit 3);
   run_protocol (fun case impl ->
     let c = nlist_of_string case in
     let m = run_line sc c in
-    (string_of_nlist m, c16_ok_line c (nlist_of_string impl), c16_ok_line c m))
+    (string_of_nlist m, c17_ok_line c (nlist_of_string impl), c17_ok_line c m))
